@@ -10,6 +10,7 @@ import Khttp.Driver.Loop
 import Khttp.Driver.Body
 import Khttp.Driver.Conn
 import Khttp.Driver.Mem
+import Khttp.Model.Status
 open Khttp Khttp.Driver
 
 def answer (line : String) : String :=
@@ -32,6 +33,9 @@ def answer (line : String) : String :=
     | "MEMMODEL" => memLine arg
     | "DATECACHE" => dateCacheLine arg
     | "POOLTRACE" => poolTraceLine arg
+    | "STATUS" =>
+      let st := Status.of (natOf arg.trimAscii.toString)
+      s!"S {st.1} {hex st.2}"
     | _ => "BAD-DOMAIN"
   | [] => "BAD-DOMAIN"
 
